@@ -45,7 +45,7 @@ type mcode struct {
 }
 
 func runSequential(t vkit.TB, c Case) {
-	w := newWorld(2, &services.ConnectionCodeServiceConfig{MaxActiveCodesPerClient: 10, MaxActiveMappingsPerClient: c.MaxMap}, false)
+	w := newWorldWith(2, &services.ConnectionCodeServiceConfig{MaxActiveCodesPerClient: 10, MaxActiveMappingsPerClient: c.MaxMap}, false, nil, c.Cluster)
 	defer w.close()
 	var codes []*mcode
 	good := map[string]int64{} // mapping id -> listen client, for every successful activation
@@ -262,7 +262,8 @@ func TestSequentialHistories(t *testing.T) {
 	})
 	vkit.Check(t, 480, 12000, func(t *rapid.T) {
 		c := Case{Mode: "sequential", FailAt: -1, QuotaFull: -1,
-			MaxMap: rapid.SampledFrom([]int{1, 2, 50}).Draw(t, "maxMappings"),
+			MaxMap:  rapid.SampledFrom([]int{1, 2, 50}).Draw(t, "maxMappings"),
+			Cluster: rapid.Bool().Draw(t, "cluster"),
 		}
 		first := Step{Kind: "create", Target: rapid.IntRange(0, 1).Draw(t, "t0"), Short: rapid.Bool().Draw(t, "short0"), FailAt: -1}
 		c.Steps = append([]Step{first}, rapid.SliceOfN(stepGen, 1, 12).Draw(t, "steps")...)
